@@ -11,7 +11,16 @@ import (
 	"time"
 )
 
-const VerifDir = "/verif"
+// VerifDir is the framework directory (the parent of the directory holding the running binary).
+var VerifDir = func() string {
+	if exe, err := os.Executable(); err == nil {
+		d := filepath.Dir(filepath.Dir(exe))
+		if _, err := os.Stat(filepath.Join(d, "properties.jsonl")); err == nil {
+			return d
+		}
+	}
+	return "/verif"
+}()
 
 // KnownFinding identifies a recorded genuine defect: the classifier signature
 // plus the frozen set of witness hashes (concrete failing cases).
